@@ -27,6 +27,21 @@ class SymNet:
     def __contains__(self, addr):
         return addr.version == self.version and self.lo <= addr.value <= self.hi
 
+    # interval versions of the network-to-network relations of ipaddress (same contract: same
+    # version and interval inclusion / intersection); ipaddress raises TypeError across versions
+    def subnet_of(self, other):
+        if self.version != other.version:
+            raise TypeError("%s and %s are not of the same version" % (self, other))
+        return other.lo <= self.lo and self.hi <= other.hi
+
+    def supernet_of(self, other):
+        if self.version != other.version:
+            raise TypeError("%s and %s are not of the same version" % (self, other))
+        return self.lo <= other.lo and other.hi <= self.hi
+
+    def overlaps(self, other):
+        return self.version == other.version and self.lo <= other.hi and other.lo <= self.hi
+
     def __getattr__(self, name):
         # an implementation that looks at anything else (netmask, network_address, ...) is outside
         # what this contract stub models: machinery error, never a verdict about nauyaca
@@ -121,11 +136,11 @@ def cidr_lemma():
             "message": "" if verdict == "confirmed" else "CIDR lemma not established"}
 
 
-ALLOW = [None, [], ["10.0.0.0/8"], ["10.0.0.0/8", "2001:db8::/32"], ["10.0.0.0/33"], ["10.0.0.1/8"], ["not-an-ip"]]
-NGOOD_A, NGOOD_D = 4, 4
+ALLOW = [None, [], ["10.0.0.0/8"], ["10.0.0.0/8", "2001:db8::/32"], ["10.1.2.0/24"], ["10.0.0.0/33"], ["10.0.0.1/8"], ["not-an-ip"]]
+NGOOD_A, NGOOD_D = 5, 4
 DENY = [None, [], ["10.1.0.0/16"], ["10.1.0.0/16", "2001:db8:1::/48"], ["::1/129"]]
 PEERS = ["10.1.2.3", "10.2.0.1", "192.0.2.1", "2001:db8:1::5", "2001:db8:2::5", "bogus", "2001:db9::a02:1", "10.1.2", "fe80::1%eth0"]
-IN_ALLOW = [{1: 0, 2: 0}, {}, {"10.1.2.3", "10.2.0.1"}, {"10.1.2.3", "10.2.0.1", "2001:db8:1::5", "2001:db8:2::5"}]
+IN_ALLOW = [{1: 0, 2: 0}, {}, {"10.1.2.3", "10.2.0.1"}, {"10.1.2.3", "10.2.0.1", "2001:db8:1::5", "2001:db8:2::5"}, {"10.1.2.3"}]
 IN_DENY = [set(), set(), {"10.1.2.3"}, {"10.1.2.3", "2001:db8:1::5"}]
 UNPARSEABLE = {"bogus", "10.1.2"}
 
@@ -135,7 +150,7 @@ def _config(enabled, ai, di, default_allow, pi, rate):
     cfg = ServerConfig(host="localhost", port=1965, document_root=_root(), enable_rate_limiting=rate,
                        enable_access_control=enabled, access_control_allow_list=ALLOW[ai],
                        access_control_deny_list=DENY[di], access_control_default_allow=default_allow)
-    bad_entry = ai >= 4 or di >= 4
+    bad_entry = ai >= NGOOD_A or di >= NGOOD_D
     try:
         cap = capture(cfg, enable_rate_limiting=cfg.enable_rate_limiting,
                       rate_limit_config=cfg.get_rate_limit_config(),
@@ -284,7 +299,7 @@ OBLIGATIONS = [
        symbolic="base, prefix length, address: bit-vectors of width 32 and 128",
        functions=["ipaddress._BaseNetwork.__contains__ (transcribed)", "ipaddress._ip_int_from_prefix (transcribed)"]),
     Ob("config_lists", config_lists, quick=400, thorough=1200,
-       symbolic="allow-list form (absent / empty / 1 / 2 entries), deny-list form (absent / empty / 1 / 2 entries), default policy, "
+       symbolic="allow-list form (absent / empty / 1 / 2 entries / 1 entry that lies inside a deny entry), deny-list form (absent / empty / 1 / 2 entries), default policy, "
                 "peer (7 incl. an unparseable one and an IPv6 address whose low 32 bits equal an allowed IPv4 address); access control enabled, no rate limiter",
        functions=["ServerConfig.get_access_control_config", "get_rate_limit_config", "start_server (assembly)", "AccessControl.__init__", "MiddlewareChain.process_request"], stubs=["ServerCapture (MiniLoop.create_server, TLS context factories, logging)"], note="discrete dimensions"),
     Ob("config_bad_entries", config_bad_entries, quick=300, thorough=900,
